@@ -80,6 +80,8 @@ type evTx struct {
 	RC int64     `json:"rc"` // refund counter when the top-level frame ended
 	CC int       `json:"cc"` // code id deployed by a successful creation
 	FR []frameEv `json:"fr"` // frame events below the top-level frame
+	CS []siteEv  `json:"cs"` // call-sites: every executed call-family instruction with its gas bookkeeping
+	ST int64     `json:"st"` // number of instructions executed
 	P0 int64     `json:"p0"` // gas pool before
 	PR int64     `json:"pr"` // gas pool as ApplyTransaction left it
 	P1 int64     `json:"p1"` // gas pool after the iteration
@@ -472,7 +474,7 @@ func (sc *scenario) run(res *mbt.Result) (lines [][]byte, why string) {
 		idx[tx.Hash()] = k
 		txs = append(txs, tx)
 		p0 := gp.Gas()
-		tr := &tracer{u: sc.u}
+		tr := &tracer{u: sc.u, stepCap: 2*tx.Gas() + 1000}
 		var rcpt *types.Receipt
 		var aerr error
 		var pan interface{}
@@ -486,6 +488,17 @@ func (sc *scenario) run(res *mbt.Result) (lines [][]byte, why string) {
 				st.RevertToSnapshot(sn)
 			}
 		}()
+		if _, isRunaway := pan.(runaway); isRunaway {
+			// the run was abandoned: the state is meaningless from here on; the event (instruction count
+			// against the gas limit) is what the specification judges
+			pv0, _ := sc.u.project(cur)
+			emit(evTx{E: "tx", K: k, F: m.from, T: m.to, N: int64(tx.Nonce()), V: i64(tx.Value()), G: int64(tx.Gas()), P: i64(tx.GasPrice()),
+				IG: int64(m.intr), SG: m.sg, CL: "exec", EG: -1, FR: []frameEv{}, CS: []siteEv{}, ST: clampU(tr.steps),
+				P0: clampU(p0), PR: clampU(p0), P1: clampU(p0), view: pv0})
+			res.Count(1)
+			res.Add("runaway_executions_abandoned", 1)
+			return lines, ""
+		}
 		if pan != nil {
 			res.Mismatch("txexec:panic:ApplyTransaction", fmt.Sprintf("ApplyTransaction panicked: %v", pan),
 				map[string]interface{}{"scenario": sc.id, "seed": mbt.Seed(), "tx": k})
@@ -496,16 +509,18 @@ func (sc *scenario) run(res *mbt.Result) (lines [][]byte, why string) {
 			*gp = types.GasPool(p0) // the caller's duty according to the specification
 		}
 		e := evTx{E: "tx", K: k, F: m.from, T: m.to, N: int64(tx.Nonce()), V: i64(tx.Value()), G: int64(tx.Gas()), P: i64(tx.GasPrice()),
-			IG: int64(m.intr), SG: m.sg, CL: classify(aerr), EG: -1, FR: []frameEv{}, P0: int64(p0), PR: int64(pr), P1: int64(gp.Gas())}
+			IG: int64(m.intr), SG: m.sg, CL: classify(aerr), EG: -1, FR: []frameEv{}, CS: []siteEv{}, P0: clampU(p0), PR: clampU(pr), P1: clampU(gp.Gas())}
 		if aerr == nil {
 			if m.create {
 				e.NW = sc.u.id(crypto.CreateAddress(sc.u.addr[m.from], tx.Nonce()))
 			}
-			e.OK, e.U = int(rcpt.Status), int64(rcpt.GasUsed)
+			e.OK, e.U = int(rcpt.Status), clampU(rcpt.GasUsed)
 			e.FR = append(e.FR, tr.evs...)
-			e.RC = int64(tr.refund)
+			e.CS = tr.siteEvents()
+			e.ST = clampU(tr.steps)
+			e.RC = clampU(tr.refund)
 			if tr.ended {
-				e.EG = int64(tr.execGas)
+				e.EG = clampU(tr.execGas)
 			}
 			if m.create && tr.topErr == nil && tr.ended && len(tr.topOut) > 0 {
 				e.CC = sc.u.codeID(crypto.Keccak256Hash(tr.topOut))
@@ -513,7 +528,7 @@ func (sc *scenario) run(res *mbt.Result) (lines [][]byte, why string) {
 			if tr.bad != "" {
 				return nil, "tracer:" + tr.bad
 			}
-			if len(e.FR) > 400 {
+			if len(e.FR) > 1500 || len(e.CS) > 1000 {
 				return nil, "long"
 			}
 		}
@@ -562,14 +577,14 @@ func (sc *scenario) run(res *mbt.Result) (lines [][]byte, why string) {
 		c.ER = cerr.Error()
 	} else {
 		for _, rc := range info.Receipts {
-			c.RC = append(c.RC, [4]int64{int64(idx[rc.TxHash]), int64(rc.GasUsed), int64(rc.Status), int64(rc.CumulativeGasUsed)})
+			c.RC = append(c.RC, [4]int64{int64(idx[rc.TxHash]), clampU(rc.GasUsed), int64(rc.Status), clampU(rc.CumulativeGasUsed)})
 		}
 		for _, tx := range txs {
 			if e, bad := failed[tx.Hash().Hex()]; bad {
 				c.RJ = append(c.RJ, [2]interface{}{idx[tx.Hash()], classify(e)})
 			}
 		}
-		c.GU = int64(info.GasUsed)
+		c.GU = clampU(info.GasUsed)
 	}
 	postB, err1 := takeSnap(stB)
 	postE, err2 := takeSnap(stE)
@@ -607,9 +622,9 @@ func (sc *scenario) run(res *mbt.Result) (lines [][]byte, why string) {
 		p.view = c.view // the state of an invalid block is not defined: nothing to compare
 	} else {
 		for _, rc := range rcP {
-			p.RC = append(p.RC, [4]int64{int64(idx[rc.TxHash]), int64(rc.GasUsed), int64(rc.Status), int64(rc.CumulativeGasUsed)})
+			p.RC = append(p.RC, [4]int64{int64(idx[rc.TxHash]), clampU(rc.GasUsed), int64(rc.Status), clampU(rc.CumulativeGasUsed)})
 		}
-		p.GU = int64(usedP)
+		p.GU = clampU(usedP)
 		postP, err := takeSnap(stP)
 		if err != nil {
 			return nil, "infra:snap"
